@@ -655,7 +655,9 @@ func CtxDone(c interface{ Done() <-chan struct{} }) <-chan struct{} {
 //go:norace
 func newThread(name string) *Thread {
 	if nthreads >= MaxT {
-		endExec(EndDiverge, "infra", "too many threads")
+		// no scenario comes near this many goroutines/timers: something spawns for ever (e.g. a retry
+		// that re-arms itself without running anything): judged like a thread that never stops
+		endExec(EndLivelock, "livelock", "more than 64 goroutines/timers were created in one execution: something restarts itself for ever")
 		return nil
 	}
 	t := &Thread{ID: nthreads, Name: name}
@@ -803,6 +805,20 @@ func ArmedTimers() int {
 
 //go:norace
 func FiredTimers() int { return int(NFired) }
+
+// lastTimerDur is the duration the most recently armed timer was armed with (timers fire whenever
+// the schedule says so; the duration is only recorded so that harnesses can judge back-off growth).
+var lastTimerDur int64
+
+// NoteTimerDur records the duration of the timer just armed.
+//
+//go:norace
+func NoteTimerDur(d int64) { lastTimerDur = d }
+
+// LastTimerDur returns the duration (ns) of the most recently armed timer.
+//
+//go:norace
+func LastTimerDur() int64 { return lastTimerDur }
 
 // LastTimerSeq returns the sequence number of the most recently armed timer (0 = none).
 //
